@@ -274,7 +274,11 @@ _LIST_H = ("int list_sum(struct list *head)\n{\n    int s = 0;\n    list_for_eac
 _TYPED = "function area(w: number): number {\n  return w;\n}\nfunction plain(w) {\n  return w;\n}\n"
 MIX_TREE = {"inc/list.h": _LIST_H, "src/m.cpp": "int m(int a) {\n  return a;\n}\n", "src/n.c": "int n(int a) {\n  return a;\n}\n",
             "twin/pick.js": _TYPED, "twin/pick.ts": _TYPED, "abi/check.c": _LIST_H, "abi/check.cpp": _LIST_H}
-WALK_TREES = {"main": WALK_TREE, "nfc": NFC_TREE, "mix": MIX_TREE}
+# a directory that is ALSO reachable through a symbolic link (workspace / monorepo layouts), and a file symlink next to its target
+LINK_TREE = {"packages/shared/util.py": harness.py_function("shared_util", 5), "packages/shared/more.js": harness.js_function("more", 4),
+             "workspace/shared": ("symlink", "../packages/shared"), "workspace/own.py": harness.py_function("own", 3),
+             "app/main.py": harness.py_function("main", 6), "app/alias.py": ("symlink", "main.py")}
+WALK_TREES = {"main": WALK_TREE, "nfc": NFC_TREE, "mix": MIX_TREE, "links": LINK_TREE}
 
 
 class WalkOracle:
@@ -303,8 +307,11 @@ class WalkOracle:
                     raise core.HarnessError("out-of-range walk choice")
                 lst[:] = list(perms[c])
             yield top, dirs, files
+            follow = kw.get("followlinks", a[2] if len(a) > 2 else False)
             for d in list(dirs):
-                yield from walk(os.path.join(top, d))
+                if not follow and os.path.islink(os.path.join(top, d)):
+                    continue  # like os.walk: a symbolic link to a directory is listed but not entered unless followlinks is set
+                yield from walk(os.path.join(top, d), followlinks=follow)
 
         os.walk = walk
         return self
@@ -764,6 +771,8 @@ def run(ctx: core.Ctx):
     for sh in range(12):
         blocks.append(("walk", sh, 12))
     blocks.append(("walk", 0, 0))  # the NFC/NFD tree, all orders
+    for sh in range(2):
+        blocks.append(("walk", sh, 2, "links"))  # a directory reachable directly and through a symbolic link, all orders
     for sh in range(4):
         blocks.append(("walk", sh, 4, "mix"))  # header + C + C++ and byte-identical twins under two languages, all orders
     for lang in canon.LANGS:
